@@ -98,6 +98,24 @@ Proof. exact RowCodecP.row_roundtrip. Qed.
 Theorem C03_row_format_as_modelled : TieRow.row_format_as_modelled.
 Proof. exact TieRow.row_format_as_modelled_holds. Qed.
 
+(* non-vacuity: a file with three keys (one of them absent from memory, one the empty key) merged with a memstore tree of
+   four keys — every key of either side comes out exactly once *)
+Example C03_tree_iterate_nonvacuous :
+  let add v := fun o : option Z => match o with Some c => c + v | None => v end in
+  let t := TreeP.built [([97; 98; 99], add 1); ([97; 98], add 2); ([], add 4); ([98], add 8)] in
+  TreeP.wf_tree t /\ TreeP.unmarked 7 t
+  /\ Tree.iterate_keys 7 [[97; 98]; [120]; []] t
+      = ([([97; 98], Some 2); ([120], None); ([], Some 4)], [([97; 98; 99], 1); ([98], 8)]).
+Proof.
+  split; [apply TreeP.built_wf|]. split; [|vm_compute; reflexivity].
+  intros n Hn. vm_compute in Hn. repeat (destruct Hn as [Hn|Hn]; [subst n; reflexivity|]). destruct Hn.
+Qed.
+(* non-vacuity of the row format theorem: a row with an empty column, followed by the start of the next row *)
+Example C03_row_nonvacuous :
+  RowCodecP.fits [1; 2; 3] [[7; 8]; []; [9]]
+  /\ RowCodec.decode_row (RowCodec.encode_row [1; 2; 3] [[7; 8]; []; [9]] ++ [42]) = Some ([1; 2; 3], [[7; 8]; []; [9]], [42]).
+Proof. exact RowCodecP.row_roundtrip_nonvacuous. Qed.
+
 Print Assumptions C03_schedule_independent.
 Print Assumptions C03_disk_equals_mem_after_flush.
 Print Assumptions C03_split_anywhere.
